@@ -591,6 +591,79 @@ func hasCycle(pm *PMap) bool {
 	return false
 }
 
+// SetInfo is the model's view of one named provider set (for wire show / wire check).
+type SetInfo struct {
+	Set     *Set
+	Reasons []Reason
+	PM      *PMap
+}
+
+// AnalyzeSet exposes the per-set analysis.
+func (m *Model) AnalyzeSet(s *Set) *SetInfo {
+	r := m.analyzeSet(s)
+	return &SetInfo{Set: s, Reasons: r.reasons, PM: r.pm}
+}
+
+// Inputs returns, for every type the set provides, the sorted keys of the types that must
+// be supplied from outside to obtain it.
+func (si *SetInfo) Inputs() map[string][]string {
+	memo := map[string]map[string]bool{}
+	var rec func(k string) map[string]bool
+	rec = func(k string) map[string]bool {
+		if v, ok := memo[k]; ok {
+			return v
+		}
+		res := map[string]bool{}
+		memo[k] = res
+		e, ok := si.PM.M[k]
+		if !ok {
+			res[k] = true
+			return res
+		}
+		for _, d := range e.Deps() {
+			for x := range rec(d.Key()) {
+				res[x] = true
+			}
+		}
+		return res
+	}
+	out := map[string][]string{}
+	for _, k := range si.PM.Order {
+		var ins []string
+		for x := range rec(k) {
+			ins = append(ins, x)
+		}
+		sort.Strings(ins)
+		out[k] = ins
+	}
+	return out
+}
+
+// IncludedSets returns the named sets reachable from s (excluding s), as "pkgpath.Name".
+func IncludedSets(s *Set) []string {
+	seen := map[*Set]bool{}
+	var out []string
+	var rec func(x *Set)
+	rec = func(x *Set) {
+		for _, it := range x.Items {
+			if it.Kind != ISetRef && it.Kind != IInlineSet {
+				continue
+			}
+			if seen[it.Set] {
+				continue
+			}
+			seen[it.Set] = true
+			if it.Kind == ISetRef {
+				out = append(out, "\""+it.Set.Pkg.Path()+"\"."+it.Set.Name)
+			}
+			rec(it.Set)
+		}
+	}
+	rec(s)
+	sort.Strings(out)
+	return out
+}
+
 // Wiring is the model's prediction for an accepted injector.
 type Wiring struct {
 	Inj     *Injector
